@@ -1,5 +1,6 @@
 import ExecModel.Proofs.SysAux
 import ExecModel.Proofs.SysTerm
+import ExecModel.Proofs.SysWait
 import ExecModel.Lts.SysExplore
 /-!
   C02 — No lost futures: every submitted future reaches a final state.
@@ -56,6 +57,20 @@ theorem no_lost_futures_each (hnf : NoFail eval) (hwf : WfCfg cfg) (hres : WfRes
   simp only [allAcceptedDone, List.all_eq_true, List.mem_range] at this
   have hi' := this i hi
   cases hf : futOf s i <;> simp_all [Fut.done]
+
+/-- **Once `shutdown(wait=True)` (or the with-block) has returned, every future obtained from that
+    executor is done**: in every reachable state in which the user thread is at the last step of a
+    shutdown procedure with `wait = true` (the next step, `sdFinish`, is the return), every accepted
+    future is done — calls that were waiting for other futures, calls still queued, cancelled ones.
+    (The shutdown that found the handle open; a `shutdown(wait=True)` issued after an earlier
+    shutdown is a no-op — finding D26.) -/
+theorem all_done_when_wait_returns (hnf : NoFail eval) (hwf : WfCfg cfg) (hres : WfRes cfg)
+    {script : List Cmd} {s : State Val Err}
+    (hsc : (script.filter isSubmit).length ≤ cfg.calls.length)
+    (h : Reachable cfg eval cancelErr script s) (hD : pg_depOk cfg s = true)
+    {sd : Sd} (hm : s.mainPc = .inSd sd) (hpc : sd.pc = .finish) (hw : sd.wait = true) :
+    allAcceptedDone s = true :=
+  (after_wait_true cfg eval cancelErr hnf hwf hres hsc h hD hm hpc hw).1
 
 /-! Non-vacuity: a maximal run with a dependent call, a cancelled call and shutdown(wait=True). -/
 def exCfg : Cfg := { resolver := true, block := some 1, calls := [{}, { deps := [0] }, {}] }
